@@ -239,6 +239,11 @@ def main(argv=None):
     ap.add_argument("--no-evidence", action="store_true")
     ap.add_argument("--workers", type=int, default=int(os.environ.get("VERIF_WORKERS", "0")))
     ap.add_argument("--wall", type=float, default=None, help="wall-clock cap for the batch, s")
+    ap.add_argument("--first", action="store_true",
+                    help="stop exploring at the first violation that is not a known finding "
+                         "(sensitivity tooling only: canaries / seeded changes)")
+    ap.add_argument("--no-minimise", action="store_true",
+                    help="report the un-minimised plan (sensitivity tooling only)")
     ap.add_argument("--digests", default=None,
                     help="write one 'mode/index plan-independent event-log digest' line per run")
     args = ap.parse_args(argv)
@@ -302,6 +307,12 @@ def main(argv=None):
             try:
                 for r in f.result(timeout=remaining):
                     (harness_errors if "harness_error" in r else results).append(r)
+                if args.first and any(
+                        r.get("violation") is not None and not any(
+                            sig_matches(chk.signature(r["plan"], r["violation"]), e["signature"])
+                            for e in load_known(cid)) for r in results):
+                    log("note: --first: stopping at the first new violation")
+                    break
             except cf.TimeoutError:
                 timed_out = True
                 break
@@ -358,8 +369,11 @@ def main(argv=None):
         if len(reported) >= chk.MAX_REPORTS or time.time() - t_min0 > chk.MINIMISE_TOTAL_S:
             continue
         try:
-            small, tests = minimise(plan, chk.candidates, lambda p: _exec_for_class(chk, p),
-                                    vio["class"], budget_s=chk.MINIMISE_S)
+            if args.no_minimise:
+                small, tests = plan, 0
+            else:
+                small, tests = minimise(plan, chk.candidates, lambda p: _exec_for_class(chk, p),
+                                        vio["class"], budget_s=chk.MINIMISE_S)
         except Exception as e:  # noqa: BLE001 - a broken reducer must not hide the violation
             log(f"note: minimiser crashed ({e!r}); reporting the un-minimised plan")
             small, tests = plan, 0
